@@ -14,6 +14,8 @@ EXPLANATION = (
     "without interior mutability (type tree)."
     ' A log that was filled before a whole-field snapshot restore is stale: replaying it afterwards is a write that nothing undoes.'
 )
+from .common import NEW_WRITERS_NOTE as _NWN
+EXPLANATION = EXPLANATION + _NWN % "12"
 NOT_DECIDED = "nothing in the state clause; RNG state advancing on a failed cuckoo insert is explicitly allowed by the trait."
 ASSUMPTIONS = [
     "external mutators behave as their names say (IntVecMut::set stores one element, Vec::push appends, FixedBitSet::set sets one bit)",
@@ -132,6 +134,8 @@ def inline_replay_loops(ctx, m, pe):
 
 
 def run(ctx):
+    from .common import check_new_writers
+    check_new_writers(ctx, "R12-new-writers", ['filters::cuckoofilter::CuckooFilter', 'filters::quotientfilter::QuotientFilter'])
     run_restore_rules(ctx)
 
 
